@@ -41,7 +41,9 @@ ASSUMPTIONS = ["exact arithmetic in the theorems",
                "and no zero EV denominator bin (bin-by-bin version without it)"]
 RULE = ("data: noise, tones in noise, integer (incl. 16-bit scale), AR-generated; real and complex; N 16..64; scalars |c| log-uniform in "
         "[1e-3,1e3] with random sign/phase; every functional estimator and every PSD class with orders in their domain; "
-        "non-trivial = non-constant data and order >= 2 where an order exists; distinct = distinct (estimator, config, data, c)")
+        "non-trivial = non-constant data and order >= 2 where an order exists; distinct = distinct (estimator, config, data, c); "
+        "plus: every class with the operation history psd / p.data *= c / psd on ONE object, and the Fourier family on complex-typed data "
+        "with zero imaginary part times a genuinely complex c")
 GEN_NAMES = ['class_scale', 'class_estimator_routing', 'model_classes_rho_routed']
 
 PRE = """Require Import Spectrum.Theory.Ops Spectrum.Theory.Vec Spectrum.Theory.Dft Spectrum.Model.Levinson Spectrum.Model.Burg Spectrum.Model.Corr
@@ -247,6 +249,25 @@ def one_class(cls, x, cfg, NFFT, sampling, c, rtol=1e-6):
     return compare(out0, out1, c, rtol)
 
 
+def object_outputs(cls, p):
+    out = {'psd': (np.array(p.psd), 0 if cls == 'pmusic' else 1 if cls == 'pev' else 2)}
+    for k, v in E.model_params(p).items():
+        power = {'ar': 0, 'ma': 0, 'reflection': 0, 'rho': 2, 'weights': 0, 'eigenvalues': 1 if cls in ('pmusic', 'pev') else 0}[k]
+        out[k] = (np.array(v), power)
+    return out
+
+
+def one_class_inplace(cls, x, cfg, NFFT, sampling, c, rtol=1e-6):
+    """operation history on ONE object: read the PSD, rescale the data through the object (p.data *= c), read again"""
+    p = E.build(cls, np.array(x), cfg, NFFT=NFFT, sampling=sampling, scale_by_freq=False)
+    out0 = object_outputs(cls, p)
+    p.data *= c
+    if not np.allclose(np.asarray(p.data), c * np.asarray(x)):
+        return [('data', 'p.data *= c did not rescale the data held by the object')]
+    out1 = object_outputs(cls, p)
+    return compare(out0, out1, c, rtol)
+
+
 
 # ------------------------------------------------------------------ aic_eigen / mdl_eigen: the formulas of Proofs/CriteriaEigenR_C03.v
 def eigen_criterion_model(s, N, which):
@@ -287,6 +308,8 @@ def replay(rep):
             return not one_criterion(r['estimator'], np.real(x), r['N'], float.fromhex(r['m']))
         if r['form'] == 'function':
             return not one_function(r['estimator'], x, cfg, c)
+        if r['form'] == 'class-inplace':
+            return not one_class_inplace(r['estimator'], x, cfg, r.get('NFFT'), r.get('sampling', 1.0), c)
         return not one_class(r['estimator'], x, cfg, r.get('NFFT'), r.get('sampling', 1.0), c)
     except Exception:
         return False
@@ -610,3 +633,64 @@ def run(ctx):
         ctx.corr_disagreement('DaniellPeriodogram', i, (meta_q + meta_g)[i])
     for i in ctx.coq_cases('c03_daniell_float', PRE_DANIELL_F, cases_f, shard=100, descr='the smoother of Model/Daniell.v run at binary64 vs DaniellPeriodogram'):
         ctx.corr_disagreement('DaniellPeriodogram', i, meta_q[i])
+
+    # ---------------- operation history: the PSD of an object is computed, the data are rescaled THROUGH the object (p.data *= c hands the
+    # object's own array back to the data setter), the PSD and the model parameters are read again
+    for it in range(ctx.q(2, 10) * len(E.CLASSES)):
+        cls = E.CLASSES[it % len(E.CLASSES)]
+        cplx = bool(rng.integers(0, 2)); N = int(rng.integers(16, 65))
+        x, kind = gen(rng, N, cplx)
+        cfg = E.default_cfg(cls, N, rng, cplx)
+        NFFT = int(rng.choice([N, N + 1, 2 * N, 64, 67])); NFFT = max(NFFT, N)
+        sampling = float(rng.choice([1.0, 7.5, 1024.0]))
+        c = rand_scalar(rng, cplx)
+        tag = 'complex' if cplx else 'real'
+        ctx.count('search/history/%s/%s' % (cls, tag))
+        ctx.case(('hist', cls, json.dumps(jcfg(cfg), sort_keys=True), NFFT, sampling, x.tobytes(), str(c)), nontrivial=True,
+                 sample={'estimator': cls, 'history': 'psd; data *= c; psd', 'cfg': jcfg(cfg), 'N': N, 'NFFT': NFFT, 'datatype': tag, 'c': str(c)})
+        rep = {'form': 'class-inplace', 'estimator': cls, 'cfg': jcfg(cfg), 'NFFT': NFFT, 'sampling': sampling,
+               'x': vlib.hexv(np.asarray(x, dtype=complex)), 'datatype': tag, 'c': [float(np.real(c)).hex(), float(np.imag(c)).hex()]}
+        try:
+            bad = one_class_inplace(cls, x, cfg, NFFT, sampling, c)
+        except Exception as e:
+            ctx.count('search/history/%s/raised' % cls); continue
+        for oname, what in bad:
+            ctx.violation('scale-inplace/%s/%s' % (cls, oname), '%s after p.data *= c, %s: %s' % (cls, oname, what), rep)
+
+    # ---------------- complex-typed data whose imaginary part is identically zero (a real record cast to complex, an ifft output) times a
+    # genuinely complex scalar: the Fourier family must treat both as complex data (same layout, |c|^2)
+    for it in range(ctx.q(12, 60)):
+        N = int(rng.integers(16, 65))
+        xr, kind = gen(rng, N, False)
+        x = np.asarray(xr, dtype=complex)
+        c = rand_scalar(rng, True)
+        if abs(c.imag) < 1e-3 * abs(c):
+            c = c * np.exp(0.7j)
+        rep_c = [float(np.real(c)).hex(), float(np.imag(c)).hex()]
+        if it % 2 == 0:
+            name = ['speriodogram', 'CORRELOGRAMPSD'][(it // 2) % 2]
+            cfg = fn_cfg(name, N, rng, True)
+            ctx.count('search/zero-imag/function/%s' % name)
+            ctx.case(('zi', name, json.dumps(jcfg(cfg), sort_keys=True), x.tobytes(), str(c)), nontrivial=True,
+                     sample={'estimator': name, 'cfg': jcfg(cfg), 'N': N, 'datatype': 'complex dtype, zero imaginary part', 'c': str(c)})
+            rep = {'form': 'function', 'estimator': name, 'cfg': jcfg(cfg), 'x': vlib.hexv(x), 'datatype': 'complex', 'c': rep_c}
+            try:
+                bad = one_function(name, x, cfg, c)
+            except Exception as e:
+                bad = [('raises', 'raised %s: %s' % (type(e).__name__, str(e)[:80]))]
+            for oname, what in bad:
+                ctx.violation('scale/%s/%s' % (name, oname), '%s, %s (complex dtype, zero imaginary part): %s' % (name, oname, what), rep)
+        else:
+            cls = ['Periodogram', 'pcorrelogram'][(it // 2) % 2]
+            cfg = E.default_cfg(cls, N, rng, True)
+            NFFT = int(rng.choice([N, N + 1, 2 * N, 64, 67])); NFFT = max(NFFT, N)
+            ctx.count('search/zero-imag/class/%s' % cls)
+            ctx.case(('zi', cls, json.dumps(jcfg(cfg), sort_keys=True), NFFT, x.tobytes(), str(c)), nontrivial=True,
+                     sample={'estimator': cls, 'cfg': jcfg(cfg), 'N': N, 'NFFT': NFFT, 'datatype': 'complex dtype, zero imaginary part', 'c': str(c)})
+            rep = {'form': 'class', 'estimator': cls, 'cfg': jcfg(cfg), 'NFFT': NFFT, 'sampling': 1.0, 'x': vlib.hexv(x), 'datatype': 'complex', 'c': rep_c}
+            try:
+                bad = one_class(cls, x, cfg, NFFT, 1.0, c)
+            except Exception as e:
+                bad = [('raises', 'raised %s: %s' % (type(e).__name__, str(e)[:80]))]
+            for oname, what in bad:
+                ctx.violation('scale/%s/%s' % (cls, oname), '%s, %s (complex dtype, zero imaginary part): %s' % (cls, oname, what), rep)
